@@ -409,7 +409,9 @@ func stdlibEffects(f *ssa.Function) stdEffect {
 		"json.Marshal", "json.MarshalIndent", "url.Parse", "url.URL.Query", "url.ParseQuery":
 		return allocOnly
 	case "sort.Strings":
-		return func(vc *VC, x *ssa.Call, ms *ModSet) { ms.heaps[vc.u.heapKey(tString)] = true }
+		return func(vc *VC, x *ssa.Call, ms *ModSet) {
+			ms.heaps[vc.u.heapKey(tString)], ms.oldH[vc.u.heapKey(tString)] = true, true
+		}
 	case "sort.Sort", "sort.Stable":
 		return func(vc *VC, x *ssa.Call, ms *ModSet) {
 			if mi, ok := x.Call.Args[0].(*ssa.MakeInterface); ok {
@@ -431,7 +433,7 @@ func stdlibEffects(f *ssa.Function) stdEffect {
 			// the slice is passed as interface: find the MakeInterface operand
 			if mi, ok := x.Call.Args[0].(*ssa.MakeInterface); ok {
 				if et := sliceElem(mi.X.Type()); et != nil {
-					ms.heaps[vc.u.heapKey(et)] = true
+					ms.heaps[vc.u.heapKey(et)], ms.oldH[vc.u.heapKey(et)] = true, true
 					return
 				}
 			}
@@ -446,7 +448,13 @@ func stdlibEffects(f *ssa.Function) stdEffect {
 					if a, ok := root.(*ssa.Alloc); ok && !a.Heap {
 						ms.cells[a] = true
 					} else {
-						ms.heaps[vc.u.heapKey(deref(root.Type()))] = true
+						k := vc.u.heapKey(deref(root.Type()))
+						ms.heaps[k] = true
+						// a target allocated inside the region is fresh memory; any
+						// other target existed before and is overwritten
+						if a, ok := root.(*ssa.Alloc); !(ok && a.Heap && ms.region != nil && ms.region(a.Block())) {
+							ms.oldH[k] = true
+						}
 					}
 					seen := map[string]bool{}
 					sub := newModSet()
@@ -714,7 +722,7 @@ func jsonUnmarshal(vc *VC, fr *Frame, st *State, x *ssa.Call, args []*Val) *Val 
 		nv := vc.havocVal(tt, "jval")
 		vc.assumeRefsBelow(st, nv.S, tt)
 		vc.store(fr, st, p, nv, x.Pos())
-		vc.jsonShapeFacts(st, nv, tt, okc, d)
+		vc.jsonShapeFacts(st, nv, old, tt, okc, d)
 	}
 	_ = errT
 	return e
@@ -776,7 +784,7 @@ func (vc *VC) havocFresh(fr *Frame, st *State, ms *ModSet, before string) {
 
 // jsonShapeFacts: what encoding/json guarantees about decoded skeletons
 // (filled in where the unmarshaling contracts need it).
-func (vc *VC) jsonShapeFacts(st *State, v *Val, t types.Type, okc, text string) {
+func (vc *VC) jsonShapeFacts(st *State, v, old *Val, t types.Type, okc, text string) {
 	u := vc.u
 	named, _ := types.Unalias(t).(*types.Named)
 	name := ""
@@ -831,13 +839,27 @@ func (vc *VC) jsonShapeFacts(st *State, v *Val, t types.Type, okc, text string) 
 		}
 		vc.assumed["json structure axiom: the decoded resourceSkeleton exposes exactly the members of the payload object (rsk_* observation functions of the text)"] = true
 	case name == "Identifier":
+		// a struct target keeps the fields whose members are absent from the
+		// text (null has no members): ident_id/ident_type are the values decoded
+		// into a zero Identifier
 		u.declareUninterp("isIdentJSON", []string{"String"}, "Bool")
 		u.declareUninterp("ident_id", []string{"String"}, "String")
 		u.declareUninterp("ident_type", []string{"String"}, "String")
+		u.declareUninterp("ident_hasID", []string{"String"}, "Bool")
+		u.declareUninterp("ident_hasType", []string{"String"}, "Bool")
 		si := u.structOf(t)
 		vc.assume(fmt.Sprintf("(= %s (isIdentJSON %s))", okc, text))
-		vc.assume(implies(okc, fmt.Sprintf("(and (= (%s %s) (ident_id %s)) (= (%s %s) (ident_type %s)))", si.fields[0], v.S, text, si.fields[1], v.S, text)))
+		vc.assume(implies(okc, fmt.Sprintf("(and (= (%s %s) (ite (ident_hasID %s) (ident_id %s) (%s %s))) (= (%s %s) (ite (ident_hasType %s) (ident_type %s) (%s %s))))",
+			si.fields[0], v.S, text, text, si.fields[0], old.S, si.fields[1], v.S, text, text, si.fields[1], old.S)))
+		if !vc.identAx {
+			vc.identAx = true
+			vc.assume("(forall ((s String)) (! (=> (jsonNull s) (and (isIdentJSON s) (not (ident_hasID s)) (not (ident_hasType s)))) :pattern ((jsonNull s))))")
+			vc.assume("(forall ((s String)) (! (=> (not (ident_hasID s)) (= (ident_id s) \"\")) :pattern ((ident_id s))))")
+			vc.assume("(forall ((s String)) (! (=> (not (ident_hasType s)) (= (ident_type s) \"\")) :pattern ((ident_type s))))")
+		}
 	case name == "Identifiers":
+		// decoding into a nil slice: the elements are new zero values filled from
+		// the text; a non-nil target reuses its elements (nothing is said then)
 		u.declareUninterp("isIdentsJSON", []string{"String"}, "Bool")
 		u.declareUninterp("idents_len", []string{"String"}, "Int")
 		u.declareUninterp("idents_id", []string{"String", "Int"}, "String")
@@ -845,8 +867,13 @@ func (vc *VC) jsonShapeFacts(st *State, v *Val, t types.Type, okc, text string) 
 		et := sliceElem(t)
 		_, he := vc.heap(st, et)
 		esi := u.structOf(et)
+		wasNil := "(= " + old.S + " nil_slice)"
 		vc.assume(implies(okc, fmt.Sprintf("(and (= (slen %s) (idents_len %s)) (>= (idents_len %s) 0))", v.S, text, text)))
-		vc.assume(implies(okc, fmt.Sprintf("(forall ((i Int)) (! (=> (and (<= 0 i) (< i (slen %s))) (= (%s (select %s (idx (sptr %s) i))) (idents_id %s i))) :pattern ((select %s (idx (sptr %s) i)))))", v.S, esi.fields[0], he, v.S, text, he, v.S)))
+		vc.assume(implies(and(okc, wasNil), fmt.Sprintf("(forall ((i Int)) (! (=> (and (<= 0 i) (< i (slen %s))) (= (%s (select %s (idx (sptr %s) i))) (idents_id %s i))) :pattern ((select %s (idx (sptr %s) i)))))", v.S, esi.fields[0], he, v.S, text, he, v.S)))
+		if !vc.identsAx {
+			vc.identsAx = true
+			vc.assume("(forall ((s String)) (! (=> (jsonNull s) (and (isIdentsJSON s) (= (idents_len s) 0))) :pattern ((jsonNull s))))")
+		}
 	default:
 		// slices of raw messages: every element is a non-empty JSON text;
 		// slices of *RawMessage may hold nil (JSON null)
